@@ -35,6 +35,15 @@ CHECKS = {
     "C17": ("exploration", "runtime observation of the repository's own generators (precompile.go, makedocs, doc sub-command) compared structurally with the shipped artefacts; exhaustive over groups, checkers and doc rows",
             "The rule compiler is re-run offline and its output compared AST-equal with rulesdata.go; every rule group's doc comments are compared with the registered checker; makedocs is executed in a scratch layout and compared with docs/overview.md; `doc` output and check-marks are compared with the registry and the selection rule.",
             "finite space, fully enumerated", "5/C17"),
+    "C08": ("exploration", "runtime differential of the four real binaries on the same workspaces under equivalent configurations; analyzer -json edits vs Warning.Suggestion from the in-process run",
+            "go-critic, gocritic and go-critic-analysis are run over generated packages plus a package with in-package tests, external tests and a main under enable-all / name and tag lists (incl. name-enabled-while-tag-disabled) / every checker parameter / -go; multisets of (file,line,col,checker,message) must be equal and free of duplicates; the analyzer must offer every CLI checker and parameter flag; -json edits must equal the API's quick fixes; the twin command's sources must be byte-identical.",
+            "CLI run with -checkGenerated -checkTests (the stock driver has no such filters); the CLI's default -enable list is passed to the analyzer explicitly", "5/C08"),
+    "C16": ("exploration", "runtime observation of the real CLI in constructed layouts (cwd/GOPATH/GOROOT/target relations, flags) with a resolve-and-compare oracle on exit status, output lines and file filters",
+            "Each file of the layout carries exactly one known trigger; printed locations are resolved back (./, $GOPATH, $GOROOT, absolute) to an existing file and line:col; exit status, exactly-once, -checkTests/-checkGenerated filtering (three-valued generated classification from ast.IsGenerated) are checked per run, incl. cwd's path occurring inside the target path and a symlinked GOROOT; CLI lines are compared with the API run.",
+            "three-valued 'generated': only G+ must be filtered and only G- must never be filtered", "5/C16"),
+    "C19": ("fault_enumeration", "runtime fault enumeration on the real binaries: invalid configurations x front-ends x package counts, broken target packages; exit status/stderr oracle; in-process re-entry of the analyzer's init latch",
+            "Every invalid configuration of the property's list is run through go-critic, gocritic and both analysis binaries with 1, 2, (5,) 12 packages; the run must stop non-zero with a message naming the problem, without panic trace and without diagnostics, identically for every package count; nine kinds of broken target packages are analysed alone and mixed with healthy ones; concurrent re-entry after an init error is replayed in-process.",
+            "targets that do not exist at all and -concurrency < 1 are outside the property's text", "5/C19"),
 }
 
 PENDING = {}
